@@ -137,7 +137,11 @@ func (vc *VC) evalConversion(call *ast.CallExpr, to types.Type, st *State) Value
 			return Term{fmt.Sprintf("(mk.%s %s)", ts, strings.Join(parts, " ")), ts, to}
 		}
 	}
-	vc.unsupportedf(call.Pos(), "conversion %s -> %s", tm.Sort, ts)
+	if a, b := vc.ss.info[tm.Sort], vc.ss.info[ts]; a != nil && b != nil {
+		vc.unsupportedf(call.Pos(), "conversion %s -> %s (%s %v / %s %v)", tm.Sort, ts, a.Kind, a.Fields, b.Kind, b.Fields)
+	} else {
+		vc.unsupportedf(call.Pos(), "conversion %s -> %s", tm.Sort, ts)
+	}
 	return vc.unknown("conv", to)
 }
 
